@@ -141,6 +141,17 @@ def sc_inbound_experimental(w, n, kind):
     w.peer_close(c)
 
 
+def sc_inbound_many_origins(w, n, kind):
+    """a relay forwards requests of N different origin hosts over one connection"""
+    c = w.handshake_in("peer1.example", auth=[4])
+    for i in range(n):
+        w.feed_msg(c, {"k": "REQ", "host": f"client{i}.example", "hbh": 0x1000 + i, "e2e": 0x1000 + i})
+        if kind == "threading" and i % 20 == 19:
+            w.advance(1)
+    w.advance(2)
+    w.peer_close(c)
+
+
 def sc_inbound_T(w, n, kind):
     c = w.handshake_in("peer1.example", auth=[4])
     for i in range(n):
@@ -357,6 +368,7 @@ SCENARIOS = {
     "inbound-request-answer": (sc_inbound, {}),
     "inbound-T-flag-repeats": (sc_inbound_T, {}),
     "inbound-answer-experimental-result": (sc_inbound_experimental, {}),
+    "inbound-many-origin-hosts": (sc_inbound_many_origins, {}),
     "rejected-requests": (sc_rejected, {}),
     "outbound-request-answer": (sc_outbound, {}),
     "outbound-request-timeout": (sc_outbound_timeout, {}),
@@ -461,7 +473,7 @@ def shard_main(shard, nshards, tier, scale):
     # mixes
     m = int((60 if thorough else 16) * scale) // 1 or 1
     names = sorted(SCENARIOS)
-    mix = st.tuples(st.lists(st.sampled_from([x for x in names if x != "newcomers-while-stopping"]), min_size=2, max_size=4, unique=True),
+    mix = st.tuples(st.lists(st.sampled_from([x for x in names if x not in ("newcomers-while-stopping", "inbound-many-origin-hosts")]), min_size=2, max_size=4, unique=True),
                     st.sampled_from([1, 3, 10]), st.sampled_from(["basic", "threading"]), st.integers(0, 5))
 
     def body(t):
